@@ -20,7 +20,7 @@ sed -i "s#path = \"/repo/incremental-map\"#path = \"$REPO/incremental-map\"#; s#
 cd "$OUT/hx"
 export CARGO_NET_OFFLINE=true
 cargo build --release >"$OUT/build-rel.log" 2>&1 || { echo "BUILD FAILED (release)"; tail -20 "$OUT/build-rel.log"; exit 2; }
-cargo build --profile dbg >"$OUT/build-dbg.log" 2>&1 || { echo "BUILD FAILED (dbg)"; tail -20 "$OUT/build-dbg.log"; exit 2; }
+cargo build --profile dbg --target-dir "$OUT/hx/target/dbg-build" >"$OUT/build-dbg.log" 2>&1 || { echo "BUILD FAILED (dbg)"; tail -20 "$OUT/build-dbg.log"; exit 2; }
 export HX_BIN_DIR="$OUT/hx/target" HX_OUT_DIR="$OUT"
 rc=0
 for p in $PROPS; do
